@@ -48,7 +48,7 @@ package leader
 //@ field kvElection.state              atomic write_under(mu) type string props C18 inv C18.state_domain: v == "INIT" || v == "CANDIDATE" || v == "LEADER" || v == "FOLLOWER" || v == "DEMOTED" || v == "STOPPED"
 //@ field kvElection.token              atomic write_under(mu) type string props C05,C01,C02 inv C05.token_is_published: OwnTok(v) || (v == "" && !this.revSet)
 //@ field kvElection.leaderID           atomic type string props C18 onstore C18.leader_consistent_id: v == this.cfg.InstanceID || (held(this.mu) == 2 && !this.isLeader)
-//@ field kvElection.revision           atomic props C01,C05,C07,C18,C13,C02 inv C01.revision_is_own_write: Own(v) || (v == 0 && !this.revSet) onstore C05.revision_matches_token: held(this.mu) == 2 ==> PubTok(v) == this.token
+//@ field kvElection.revision           atomic props C01,C05,C07,C18,C13,C02,C03 inv C01.revision_is_own_write: Own(v) || (v == 0 && !this.revSet) onstore C05.revision_matches_token: held(this.mu) == 2 ==> PubTok(v) == this.token
 //@ field kvElection.observedRevision   atomic
 //@ field kvElection.lastHeartbeat      atomic type time.Time
 //@ field kvElection.lastTransition     atomic type time.Time
@@ -60,7 +60,7 @@ package leader
 //@ field kvElection.onPromote          guarded_by(mu)
 //@ field kvElection.onDemote           guarded_by(mu)
 //@ field kvElection.stopsWaiting       guarded_by(mu) counter
-//@ field kvElection.healthFailureCount owned_by(heartbeatLoop,handleHealthCheckFailure) props C12,C20
+//@ field kvElection.healthFailureCount owned_by(heartbeatLoop,handleHealthCheckFailure) props C12,C20,C06
 //@ field kvElection.stopped            ghost sort Bool write_under(mu)
 //@ field kvElection.revSet             ghost sort Bool monotone    // becomeLeader has stored an own revision at least once
 
@@ -116,7 +116,7 @@ package leader
 //@ objinv kvElection C11.monitor_has_handler: this.connectionMonitor != nil ==> (this.disconnectHandler != nil && this.disconnectHandler.election == this)
 //@ objinv disconnectHandler C11.handler_has_election: this.election != nil
 
-//@ lockinv kvElection.mu C18+C02+C01+C19.claim_iff_state:        isLeader == (state == "LEADER")
+//@ lockinv kvElection.mu C18+C02+C01+C19+C08.claim_iff_state:        isLeader == (state == "LEADER")
 //@ lockinv kvElection.mu C20+C09.no_run_under_a_waiting_stop: stopsWaiting > 0 ==> stopped
 //@ lockinv kvElection.mu C20+C09.waiting_stops_counted: stopsWaiting >= caller.stopsAnnouncedHere && caller.stopsAnnouncedHere >= 0
 //@ lockinv kvElection.mu C02+C09.claim_implies_running:  isLeader ==> (ctx != nil && !stopped)
@@ -139,7 +139,7 @@ package leader
 //@   on store kvElection.isLeader as s when !s.value set $claimCleared = true
 //@   on call updateIsLeaderMetric set $gaugeFresh = true
 //@   on call kvElection.cancel assert C19+C09.election_ctx_cancelled_only_by_stop_paths: caller.mayCancelElection
-//@   on call kvElection.termCancel assert C03+C07+C19.term_ctx_cancelled_only_when_claim_cleared: caller.mayCancelTerm
+//@   on call kvElection.termCancel assert C03+C07+C19+C02.term_ctx_cancelled_only_when_claim_cleared: caller.mayCancelTerm
 //@   ghost $tokenDrawn Bool = false
 //@   ghost $lastDrawn Int = 0
 //@   on call uuid.String as u set $tokenDrawn = u.random
@@ -190,7 +190,7 @@ package leader
 //@   requires C01.key_is_group: key == e.key
 //@   requires C01+C02.delete_only_by_stopping_leader: caller.mayDelete
 //@   requires C01+C02.delete_after_claim_cleared: $claimCleared
-//@   requires C01.conditional_delete_names_own_write: Own(rev)
+//@   requires C01+C09.conditional_delete_names_own_write: Own(rev)
 
 //@ iface KeyValue.Watch(key, opts)
 //@   requires C01.key_is_group: key == e.key
@@ -580,7 +580,7 @@ package leader
 
 //@ func (e *kvElection) demote(unlessLeader)
 //@   tags C03 C07 C08 C18 C19 C06
-//@   requires C07+C10.no_demotion_without_cause: unlessLeader || caller.demote_cause
+//@   requires C07+C10+C08.no_demotion_without_cause: unlessLeader || caller.demote_cause
 //@   ghost out cleared Bool = false
 //@   ghost termCancelled Bool = false
 //@   ghost mayCancelTerm Bool = false
@@ -829,6 +829,21 @@ package leader
 //@   on recv ticker set isPerm = false
 //@   on recv ticker set hbfCalled = false
 //@   on recv ticker set revLoaded = false
+//@   ghost spawned refreshIssued Bool = false
+//@   ghost ticked Bool = false
+//@   ghost marshalFailed Bool = false
+//@   on recv ticker set refreshIssued = false
+//@   on recv ticker set ticked = true
+//@   on recv ticker set marshalFailed = false
+//@   on call KeyValue.Update set refreshIssued = true
+//@   on call json.Marshal as m set marshalFailed = m.result1 != nil
+//@   on backedge 0 assert C03+C07.every_tick_of_a_healthy_leader_refreshes: ticked && leaderThisTick && !unhealthyThisTick && !marshalFailed ==> refreshIssued
+//@   ghost checkCtx Int = 0
+//@   ghost checkCtxFresh Bool = false
+//@   on recv ticker set checkCtxFresh = false
+//@   on call context.WithTimeout as w set checkCtx = w.result0
+//@   on call context.WithTimeout set checkCtxFresh = true
+//@   on call HealthChecker.Check as c assert C12+C07.check_context_made_for_this_check: checkCtxFresh && c.ctx == checkCtx
 //@   on call HealthChecker.Check as c assert C12.ctx_100ms: origin(c.ctx, "ctx:derived") && CtxTimeout(c.ctx) == 100000000 && CtxParent(c.ctx) == ctx
 //@   ghost unhealthyThisTick Bool = false
 //@   on recv ticker set unhealthyThisTick = false
@@ -838,7 +853,7 @@ package leader
 //@   on call handleHealthCheckFailure assert C12.demote_exactly_at_threshold: streak == MaxHealth(e.cfg)
 //@   on call handleHealthCheckFailure set health_exhausted = streak >= MaxHealth(e.cfg)
 //@   on load kvElection.revision set revLoaded = true
-//@   on load kvElection.token as l assert C01.revision_before_token: revLoaded
+//@   on load kvElection.token as l assert C01+C05+C07.revision_before_token: revLoaded
 //@   on load kvElection.token as l set lastTok = l.value
 //@   on call json.Marshal as m assert C05+C07+C02.heartbeat_payload: m.v.ID == e.cfg.InstanceID && m.v.Token == lastTok && m.v.Priority == e.cfg.Priority
 //@   on call time.After as a assert C03+C07.timeout_value: a.d == max(e.cfg.HeartbeatInterval / 2, 1000000000)
@@ -904,7 +919,7 @@ package leader
 //@   on ret becomeFollower as r set cleared = r.result
 //@   on load kvElection.onDemote as l set demoteSet = l.value != nil
 //@   ensures C03+C02+C19.cancelled_run_ends_its_term: runDead ==> calls(becomeFollower) == 1
-//@   ensures C07.live_run_left_alone: !runDead ==> calls(becomeFollower) == 0 && calls(onDemote) == 0
+//@   ensures C07+C08.live_run_left_alone: !runDead ==> calls(becomeFollower) == 0 && calls(onDemote) == 0
 //@   ensures C08+C03.demote_iff_claim_cleared: calls(onDemote) == ((cleared && demoteSet) ? 1 : 0)
 
 //@ func (e *kvElection) handleHealthCheckFailure()
@@ -1335,10 +1350,10 @@ package leader
 //@   on unlock MockKeyValue.mu when held(m.mu) == 2 set postVal = m.data[key].Value
 //@   on unlock MockKeyValue.mu when held(m.mu) == 2 set postCtr = m.rev
 //@   on unlock MockKeyValue.mu when held(m.mu) == 2 set wrote = true
-//@   ensures C14.model_create_iff_absent: plain && wrote ==> ((result1 == nil) == !hadKey)
+//@   ensures C14+C02.model_create_iff_absent: plain && wrote ==> ((result1 == nil) == !hadKey)
 //@   ensures C14.model_create_effect: plain && wrote && result1 == nil ==> postHas && postVal == value && postRev == result0 && result0 == oldCtr + 1 && postCtr == result0
 //@   ensures C14.model_create_failure_no_effect: plain && wrote && result1 != nil ==> postCtr == oldCtr && result0 == 0
-//@   ensures C14.model_plain_mode_reaches_store: plain && !m.failCreate ==> wrote
+//@   ensures C14+C02.model_plain_mode_reaches_store: plain && !m.failCreate ==> wrote
 
 //@ func (m *MockKeyValue) Update(key, value, rev, opts)
 //@   tags C14
@@ -1363,7 +1378,7 @@ package leader
 //@   ensures C14.model_update_iff_latest: plain && wrote ==> ((result1 == nil) == (hadKey && oldRev == rev))
 //@   ensures C14.model_update_effect: plain && wrote && result1 == nil ==> postHas && postVal == value && postRev == result0 && result0 == oldCtr + 1 && postCtr == result0 && result0 > oldCtr
 //@   ensures C14.model_update_failure_no_effect: plain && wrote && result1 != nil ==> postCtr == oldCtr && result0 == 0 && (hadKey ==> postRev == oldRev)
-//@   ensures C14.model_plain_mode_reaches_store: plain && !m.failUpdate ==> wrote
+//@   ensures C14+C02.model_plain_mode_reaches_store: plain && !m.failUpdate ==> wrote
 
 //@ func (m *MockKeyValue) Get(key)
 //@   tags C14
@@ -1381,7 +1396,7 @@ package leader
 //@   on lock MockKeyValue.mu set nlock = nlock + 1
 //@   ensures C14.model_get_iff_live: plain && read ==> ((result1 == nil) == hadKey)
 //@   ensures C14.model_get_latest: plain && read && result1 == nil ==> result0 != nil && istype(result0, *natsmock.MockEntryImpl) && result0.(*natsmock.MockEntryImpl).ValueVal == curVal && result0.(*natsmock.MockEntryImpl).RevVal == curRev && result0.(*natsmock.MockEntryImpl).KeyVal == key
-//@   ensures C14.model_plain_mode_reaches_store: plain && !m.failGet ==> read
+//@   ensures C14+C02.model_plain_mode_reaches_store: plain && !m.failGet ==> read
 
 //@ func (m *MockKeyValue) Delete(key)
 //@   tags C14
@@ -1395,7 +1410,7 @@ package leader
 //@   on unlock MockKeyValue.mu when held(m.mu) == 2 set wrote = true
 //@   ensures C14.model_delete_iff_live: plain && wrote ==> ((result == nil) == hadKey)
 //@   ensures C14.model_delete_effect: plain && wrote && result == nil ==> !postHas
-//@   ensures C14.model_plain_mode_reaches_store: plain && !m.failDelete ==> wrote
+//@   ensures C14+C02.model_plain_mode_reaches_store: plain && !m.failDelete ==> wrote
 
 // ===========================================================================
 // test_adapters.go and the remaining nats adapters: faithful pass-through (C14)
